@@ -922,7 +922,8 @@ class FnEmitter:
             if n in pnames or t[0] == 'void':
                 continue
             decls.append('  ' + em.ctype(t, 'L' + cid(n)) + ';')
-        return sig + '\n{\n' + '\n'.join(decls + self.decls) + '\n' + '\n'.join('  ' + b if not b.endswith(': ;') else b for b in body) + '\n}\n'
+        pro = ['  __vrt_static_init(); /* constant tables are initialised before any root runs, as in the real program */'] if f.name in em.roots else []
+        return sig + '\n{\n' + '\n'.join(decls + self.decls + pro) + '\n' + '\n'.join('  ' + b if not b.endswith(': ;') else b for b in body) + '\n}\n'
 
     # ---- parsing one instruction into a dict
     def parse_inst(self, s):
@@ -1516,6 +1517,7 @@ def main():
     m = parse_module(open(src).read())
     em = Emitter(m)
     em.nullchecks = not nonull
+    em.roots = set(roots)
 
     def refs_of(name):
         acc = set()
@@ -1561,7 +1563,7 @@ def main():
     em.reach = reach
     em.build_rtti()
     out = []
-    out.append('#include "vrt.h"\n')
+    out.append('#include "vrt.h"\nvoid __vrt_static_init(void);\n')
     # function bodies first (into a buffer) so anon struct types get discovered
     bodies = []
     protos = []
